@@ -1,4 +1,5 @@
 """C07 - Cached answers go only to the same question and client group, unchanged (DESIGN.md section 4, C07)."""
+import json
 import vf, routerfam
 
 
@@ -28,6 +29,23 @@ def run(ctx):
                      describe=lambda ev, inv: "%s: lookup of key %s returned key %s version %s (stored so far: %s), intact=%s" % (
                          inv, ev.get("k"), ev.get("rk"), ev.get("rn"), ev.get("maxv"), ev.get("intact")),
                      only=["Inv_C07_", "Unconsumable"], require_events=50)
+    # the client-group table (internal/netlist behind the ip-marker file): coded table = declarative table for every
+    # list of up to 3 ranges; TLC-enumerated and random lists built and probed through the real code
+    ctx.exhaustive("NetList_MC", "NetList_MC", timeout=600)
+    nb = vf.tlc("NetList_MC", cfg="NetList_MC_bug", timeout=300)
+    if nb.ok or nb.violated != "Inv_TouchingAccepted":
+        raise vf.MachineryError("sensitivity run NetList_MC_bug was not rejected")
+    g = vf.tlc("NetList_MC", cfg="NetList_Gen", workers=1, timeout=600, defines=None)
+    lists = vf.tlc_values(g.out, "STIM")
+    if len(lists) < 3000:
+        raise vf.MachineryError("too few range lists from TLC: %d" % len(lists))
+    nf = ctx.path("netlists.json")
+    json.dump(lists, open(nf, "w"))
+    nt = ctx.path("netlist.ndjson")
+    ctx.driver(cdrv, ["-out", nt, "-netlist", nf, "-nlrandom", 300 if ctx.quick else 5000], timeout=900)
+    ctx.validate("NetListTrace", nt, lambda ev, inv: "%s:%s" % (inv, ev.get("via", "lookup")),
+                 only=["Inv_C07_", "Unconsumable"], require_events=20000, timeout=1800)
+    ctx.extra["tlc_range_lists_replayed"] = len(lists)
     args = ["-thorough"] if not ctx.quick else []
     trace, _ = routerfam.run_mode(ctx, drv, "c07", args)
     routerfam.validate(ctx, trace, only=["Inv_C07_", "Unconsumable"], require_events=600)
